@@ -135,6 +135,10 @@ Definition pv_truthy (v : pv) : res bool :=
 Definition pv_is_none (v : pv) : bool := match v with PV VNull => true | _ => false end.
 (* identity with the singleton True / False (bld-env, additive: these cases were Stuck) *)
 Definition pv_is_bool (y : bool) (v : pv) : bool := match v with PV (VBool x) => Bool.eqb x y | _ => false end.
+(* identity with an opaque object (bld-sub, additive: these cases were Stuck): two references denote the same object
+   iff their numbers are equal (a translator that emits references for objects compared with `is` must give one
+   number per object); a reference is never identical to a value of another shape *)
+Definition pv_is_ref (j : nat) (v : pv) : bool := match v with PRef i => Nat.eqb i j | _ => false end.
 
 (* Python == on the modelled values (scalars: Base/PyValue's val_eq between values of one kind) *)
 Fixpoint pv_eqb (a b : pv) {struct a} : bool :=
@@ -158,9 +162,17 @@ Fixpoint pv_eqb (a b : pv) {struct a} : bool :=
 Definition compare1 (op : cmpop) (a b : pv) : res bool :=
   match op with
   | CIs => if pv_is_none b then Ok (pv_is_none a) else if pv_is_none a then Ok false
-           else match b with PV (VBool y) => Ok (pv_is_bool y a) | _ => Stuck end    (* x is True / x is False *)
+           else match b with
+                | PV (VBool y) => Ok (pv_is_bool y a)    (* x is True / x is False *)
+                | PRef j => Ok (pv_is_ref j a)            (* x is <opaque object> (bld-sub, additive: was Stuck) *)
+                | _ => Stuck
+                end
   | CIsNot => if pv_is_none b then Ok (negb (pv_is_none a)) else if pv_is_none a then Ok true
-              else match b with PV (VBool y) => Ok (negb (pv_is_bool y a)) | _ => Stuck end
+              else match b with
+                   | PV (VBool y) => Ok (negb (pv_is_bool y a))
+                   | PRef j => Ok (negb (pv_is_ref j a))
+                   | _ => Stuck
+                   end
   | CIn => match b with PList l | PTuple l => Ok (existsb (pv_eqb a) l) | _ => Stuck end
   | CNotIn => match b with PList l | PTuple l => Ok (negb (existsb (pv_eqb a) l)) | _ => Stuck end
   | _ =>
